@@ -169,6 +169,9 @@ pub fn c06_profile() -> CaseProfile {
         compact: 14,
         reopen: 4,
         key_window: 5,
+        cursor_open: 5,
+        cursor_op: 40,
+        cursor_close: 1,
         ..Weights::default()
     };
     CaseProfile {
@@ -243,6 +246,9 @@ pub fn c08() -> PropDef<Case> {
         txn: 6,
         flush_all: 1,
         reopen: 1,
+        cursor_open: 6,
+        cursor_op: 60,
+        cursor_close: 2,
         ..Weights::default()
     };
     model_prop(
@@ -254,9 +260,9 @@ pub fn c08() -> PropDef<Case> {
             cfg: CfgProfile { versioning: Some(false), vindex: Some(false), vlog: Some(false), tiny: true, retention: false, cache: None },
             pool: (3, 10),
             steps: (10, 60),
-            step: StepProfile { slots: 3, w, ops: OpWeights { set: 10, delete: 4, soft_delete: 3, replace: 2 }, explicit_ts: false, txn_keys: (1, 3), open_bounds: false, ro_frac: 3, wo_frac: 3 },
+            step: StepProfile { slots: 3, w, ops: OpWeights { set: 10, delete: 4, soft_delete: 3, replace: 2 }, explicit_ts: true, txn_keys: (1, 3), open_bounds: false, ro_frac: 3, wo_frac: 3 },
         },
-        ExecOpts { judge_rejections: true, ..ExecOpts::default() },
+        ExecOpts { judge_rejections: true, explicit_ts_unversioned: true, ..ExecOpts::default() },
         |s, _| (s.has("sp_rollbacks_nonempty") && s.has("ryow_reads")) || s.has("rejections"),
     )
 }
@@ -391,6 +397,28 @@ pub fn c10(vindex: bool, ties: bool) -> PropDef<Case> {
         c10_profile(Some(vindex), false),
         ExecOpts { judge_rejections: false, versioned_sweep: true, single_write_per_key: true, final_reopen: true, no_ties: !ties, ..ExecOpts::default() },
         |s, _| s.has("history_ge3") && s.has("get_at_non_latest") && s.has("compactions"),
+    )
+}
+
+/// Back-dated writes (README: allowed with the version index): a later commit carries an OLDER timestamp than an
+/// existing version of the key. Only plain sets, only `get_at` is judged (greatest timestamp not above T).
+pub fn c10_backdated() -> PropDef<Case> {
+    let mut p = c10_profile(Some(true), false);
+    p.step.ops = OpWeights { set: 10, delete: 0, soft_delete: 0, replace: 0 };
+    p.step.w.history = 0;
+    p.step.w.get_at = 24;
+    p.step.w.rotate = 2;
+    p.step.w.flush_all = 4;
+    p.step.w.compact = 4;
+    p.pool = (1, 4);
+    model_prop(
+        "C10",
+        "exploration",
+        "back-dated stream: version index on, plain sets only, a third of the explicit timestamps lie below the newest version of the key (never equal to an existing one); get_at probes around every version timestamp in memtable, after flush, after compaction and reopen. Oracle: the version with the greatest timestamp not above T. Non-trivial: a get_at for a non-latest version was decided.",
+        COMMON_ASSUMPTIONS,
+        p,
+        ExecOpts { judge_rejections: false, versioned_sweep: false, single_write_per_key: true, final_reopen: true, no_ties: true, backdate: true, ..ExecOpts::default() },
+        |s, _| s.has("get_at_non_latest"),
     )
 }
 
